@@ -30,6 +30,9 @@ F = [
  ("C10","C10-open-reader-makes-compaction-drop-history","fixed","fedc26d","versioning with unlimited retention: flush + compaction while any reader was open discarded older versions (snapshot-boundary supersession applied to history)"),
  ("C10","C10-retention-drops-replace-barrier","open","","finite retention, LSM back-end: a non-bottom compaction drops an expired replace while versions it erased survive on a deeper level; they come back in history / get_at. Not repaired: src/test/iterator_tests.rs (test_compaction_iterator_set_with_delete_marks_older_versions_stale, ..._multiple_replace_operations) pins dropping the expired replace at a non-bottom level"),
  ("C10","C10-index-retention-barrier-cleaned","open","","version index + finite retention: the index entry of an expired replace is cleaned with its value-log file while older tombstone entries (no value pointer) stay; the erased tombstone is listed again. Not repaired: needs a redesign of index clean-up (entries without value pointers are never collected)"),
+ ("C14","C14-stale-block-cache-after-restore","fixed","184e9d5","after restore, a new table reused the id of a table of the discarded timeline and reads were served from that table's cached blocks"),
+ ("C14","C14-vlog-writer-after-restore","fixed","1ae67d9","after restore the value-log writer kept appending to the replaced file: values written after the restore were unreadable (live and after reopen)"),
+ ("C14","C14-version-index-not-restored","open","","the B+tree version index is neither part of a checkpoint nor rewound by restore: with the index enabled, versioned reads after a restore see (or fail on) entries of the discarded timeline, and a checkpoint opened standalone has an empty index. Not repaired: needs checkpoint format + restore support for the index file"),
  ("C11","C11-vlog-rotation-inside-flush-not-synced","fixed","f424741","a value-log file rotated away inside a flush was never fsynced; after power loss the installed table pointed at missing bytes"),
 ]
 out = {"_comment": "Committed; never written at run time. status=open: the directed scenario with the same id (harness/src/scenarios.rs or harness/src/props/crash.rs) still fails on the tree; the check prints KNOWN-FINDING for it and the generators mask exactly that pattern. status=fixed: repaired by the named fix: commit in /repo; suppresses nothing - the scenario stays in the check as a regression monitor and reports VIOLATION if the behaviour returns.",
